@@ -48,7 +48,9 @@ void vf_alloc_install(void);
 void vf_lfree(void *p);            /* free a block the library allocated (tokens, GET_JSON text) keeping the count balanced */
 void vf_alloc_guard(int on);
 void vf_alloc_recycle(int on);   /* freed blocks are reused LIFO per size (address reuse made certain); parked blocks are poisoned */
-long vf_alloc_reused(void);       /* guard-page placement for blocks allocated from now on (switch only when no block is live) */
+long vf_alloc_reused(void);
+void vf_alloc_track(int on);     /* remember every block handed out; report a free of anything else (switch on before the first library allocation) */
+long vf_alloc_foreign(void);       /* guard-page placement for blocks allocated from now on (switch only when no block is live) */
 long vf_alloc_live(void);           /* live blocks handed out and not yet freed */
 long vf_alloc_total(void);          /* allocation requests so far */
 void vf_alloc_reset_counter(void);
